@@ -1,8 +1,11 @@
 /-
 Driver for the discretisation family (`c2d …`), one request per line:
-  ss n p m dt A… B… C… D… Ts method alpha|- (P w tanv)|- (E v…)|-
-  tf <num> <den> dt Ts method alpha|- (P w tanv)|-
-  matched <num> <den> <zeros> <poles> <E(zeros·Ts)> <E(poles·Ts)> Ts
+  ss n p m dt A… B… C… D… Ts method alpha|- (P w tanv)|- (E v…)|- [J 0|1 dt]
+  tf <num> <den> dt Ts method alpha|- (P w tanv)|- [J 0|1 dt]
+  matched <num> <den> <zeros> <poles> <E(zeros·Ts)> <E(poles·Ts)> Ts [J 0|1 dt]
+(`Ts` = a rational or `T` for the Python value `True`; the optional `J first dt` asks for the
+timebase of the sampled system combined with a system of timebase `dt`, printed as a trailing
+` J <dt>` / ` J err <e>`)
   names copy(0|1) name|- srcname|- <inputs> <outputs> <states> (- | <list>)×3
   pade T n numdeg|-
 Trusted glue.
@@ -36,6 +39,26 @@ def pPrewarp : P (Option (Prewarp Q)) := do
     pure (some ⟨w, tv⟩)
   else throw s!"prewarp:{t}"
 
+/-- the period argument: `T` = Python `True`, otherwise a rational. -/
+def pPeriod : P Period := do
+  let t ← tok
+  if t == "T" then pure .btrue
+  else match parseRat t with
+    | some q => pure (.num q)
+    | none => throw s!"period:{t}"
+
+/-- optional trailing `J first dt`: the second step. -/
+def pJoin (Ts : Period) : P String := do
+  match (← peek?) with
+  | some "J" =>
+    let _ ← tok
+    let first ← pNat
+    let other ← pDt
+    match joinDt Ts other (first != 0) with
+    | .ok d => pure (" J " ++ showDt d)
+    | .error e => pure (" J " ++ showErr e)
+  | _ => pure ""
+
 def sumIdx {n m : Nat} : Fin n ⊕ Fin m → Nat
   | .inl a => a.val
   | .inr b => n + b.val
@@ -61,26 +84,28 @@ def hSS : P String := do
   let B ← pMatSized n m
   let C ← pMatSized p n
   let D ← pMatSized p m
-  let Ts ← pRat
+  let Ts ← pPeriod
   let method ← pMethod
   let alpha ← pOptRat
   let pw ← pPrewarp
   let ext ← pExt n m
+  let j ← pJoin Ts
   let G : DSS Q := ⟨n, p, m, ⟨A, B, C, D⟩, dt⟩
-  match G.sample Ts method alpha pw ext with
-  | .ok R => pure ("ok " ++ showSS R)
+  match G.sampleP Ts method alpha pw ext with
+  | .ok R => pure ("ok " ++ showSS R ++ j)
   | .error e => pure (showErr e)
 
 def hTF : P String := do
   let num ← pList pRat
   let den ← pList pRat
   let dt ← pDt
-  let Ts ← pRat
+  let Ts ← pPeriod
   let method ← pMethod
   let alpha ← pOptRat
   let pw ← pPrewarp
-  match tfSample num den dt Ts method alpha pw with
-  | .ok (nd, dd, d) => pure (s!"ok tf {showDt d} " ++ showRats nd ++ " " ++ showRats dd)
+  let j ← pJoin Ts
+  match tfSampleP num den dt Ts method alpha pw with
+  | .ok (nd, dd, d) => pure (s!"ok tf {showDt d} " ++ showRats nd ++ " " ++ showRats dd ++ j)
   | .error e => pure (showErr e)
 
 def lookupE (keys vals : List Rat) (x : Rat) : Rat :=
@@ -95,12 +120,13 @@ def hMatched : P String := do
   let poles ← pList pRat
   let ez ← pList pRat
   let ep ← pList pRat
-  let Ts ← pRat
+  let Ts ← pPeriod
+  let j ← pJoin Ts
   if ez.length ≠ zeros.length ∨ ep.length ≠ poles.length then throw "matched:lengths"
-  let keys := (zeros ++ poles).map (· * Ts)
+  let keys := (zeros ++ poles).map (· * Ts.val)
   let E := lookupE keys (ez ++ ep)
-  match c2dMatched num den zeros poles E Ts with
-  | .ok (nd, dd, d) => pure (s!"ok tf {showDt d} " ++ showRats nd ++ " " ++ showRats dd)
+  match c2dMatchedP num den zeros poles E Ts with
+  | .ok (nd, dd, d) => pure (s!"ok tf {showDt d} " ++ showRats nd ++ " " ++ showRats dd ++ j)
   | .error e => pure (showErr e)
 
 def pStrs : P (List String) := pList tok
